@@ -111,18 +111,15 @@ theorem jump_passes {seq : List Nat} {base mj : Nat} {eS eB : Enc} {T : List Tk}
 theorem codec_roundtrip_segno (nS nM : Nat) (a b : List MEv) (ha : ∀ ev ∈ a, linEv ev = true)
     (hb : ∀ ev ∈ b, linEv ev = true) (jarg : Nat) :
     ∃ bytes, convertTrack nS nM (a ++ [⟨mds_SEGNO, 0⟩] ++ b ++ [⟨mds_JUMP, jarg⟩]) = .ok bytes ∧
-      (bytes.length < 65536 →
-        ∀ (base mj maxTicks : Nat) (ln lr : Option Nat),
-          (ticks nS nM a ++ repeatL mj (ticks nS nM b ++ [Tk.loopMark]) ++ ticks nS nM b).length ≤ maxTicks →
-          ∃ n, ∀ fuel, fuel > n →
-            run bytes base mj maxTicks fuel { pc := 0, lastNote := ln, lastRest := lr } =
-              (ticks nS nM a ++ repeatL mj (ticks nS nM b ++ [Tk.loopMark]) ++ ticks nS nM b, .finished)) := by
+      (bytes.length < 65536 → ∀ (base mj : Nat) (ln lr : Option Nat),
+        Plays bytes base mj ln lr
+          (ticks nS nM a ++ repeatL mj (ticks nS nM b ++ [Tk.loopMark]) ++ ticks nS nM b)) := by
   obtain ⟨eA, heA, _, _, _, semA⟩ := encAll_lin nS nM a ha {}
   obtain ⟨eB, heB, pB, _, spB, semB⟩ := encAll_lin nS nM b hb (afterSegno eA)
   obtain ⟨bytes, hbytes⟩ : ∃ l, l = eB.out ++ [mds_JUMP, jumpOff eB / 256, jumpOff eB % 256] := ⟨_, rfl⟩
   refine ⟨bytes, ?_, ?_⟩
   · simp [convertTrack, encAll_append, heA, encAll, encEv_segno, heB, encEv_jump, Except.map, hbytes]
-  · intro hlen base mj maxTicks ln lr hmax
+  · intro hlen base mj ln lr
     have hpB : eB.out <+: bytes := by rw [hbytes]; exact List.prefix_append _ _
     have hpS : (afterSegno eA).out <+: bytes := pB.trans hpB
     obtain ⟨s1, r1, f1, g1⟩ := semA bytes base mj _ [] ((disambP_prefix eA).trans hpS) (good_init ln lr)
@@ -141,11 +138,7 @@ theorem codec_roundtrip_segno (nS nM : Nat) (a b : List MEv) (ha : ∀ ev ∈ a,
       (fun s O g => semB bytes base mj s O hpB g)
       (fun s hpc hd => good_at_segno eA s hpc hd) (by rw [← hbytes]; exact List.prefix_refl _) htgt
       mj s2 _ g2 (by omega) (by omega)
-    have hout : s'.out = (ticks nS nM a ++ repeatL mj (ticks nS nM b ++ [Tk.loopMark]) ++ ticks nS nM b).reverse := by
-      rw [ho']; simp [List.reverse_append, List.append_assoc]
-    obtain ⟨n, hn⟩ := run_of_reach (maxTicks := maxTicks) (r1.trans (r2.trans r')) hfin
-      (by rw [hout, List.length_reverse]; exact hmax)
-    refine ⟨n, fun fuel hf => ?_⟩
-    rw [hn fuel hf, hout, List.reverse_reverse]
+    refine ⟨s', r1.trans (r2.trans r'), hfin, ?_⟩
+    rw [ho']; simp [List.reverse_append, List.append_assoc]
 
 end Ctrmml.Codec
